@@ -27,8 +27,10 @@ H.append({"name":"H_diff","tiers":Q,"scale":"b2","preemptions":-1,"bounds":"Writ
 scale+=[dict(r,set="w",value=("64" if r.get("match")=="128 * 1024" else r["value"])) for r in sc(2,5)]
 H.append({"name":"H_bsdiff","tiers":Q,"scale":"w","preemptions":1,"bounds":"bsdiff with a 64-byte scan block (matches beyond the 8-byte threshold): old 24, new 30..70 (1-2 scan blocks), partitions 1..3, <=1 preemption, 2 policies; and 8 vs 2 CPUs",
   "param_sets":[{"n0":24,"n1":n,"parts":p,"policy":q} for n in (30,70) for p in (1,2,3) for q in (0,1)]+[{"n0":24,"n1":70,"parts":p,"policy":0,"procs1":8,"procs2":2} for p in (2,3)]})
-H.append({"name":"H_diff","tiers":T,"scale":"b2","preemptions":1,"bounds":"<=1 preemption, sizes (4,3),(5,2),(3,4),(6,1); without / with short reads / EOF-with-data readers; three policies (2 preemptions exceed the per-instance budget: stated, not run)","max_seconds":900,
-  "param_sets":[{"n0":a,"n1":b,"slicing":s,"policy":p} for (a,b) in ((4,3),(5,2),(3,4),(6,1)) for s in (0,1,2) for p in (0,1,2)]})
+H.append({"name":"H_diff","tiers":T,"scale":"b2","preemptions":1,"bounds":"<=1 preemption, sizes (4,3),(5,2),(3,4),(6,1); full reads and EOF-with-data readers; three policies (2 preemptions exceed the per-instance budget: stated, not run)","max_seconds":900,
+  "param_sets":[{"n0":a,"n1":b,"slicing":s,"policy":p} for (a,b) in ((4,3),(5,2),(3,4),(6,1)) for s in (0,2) for p in (0,1,2)]})
+H.append({"name":"H_diff","tiers":T,"scale":"b2","preemptions":0,"bounds":"every short-read slicing (1 byte / half / all per read) under the canonical schedule, sizes (4,3),(5,2),(3,4)","max_seconds":900,
+  "param_sets":[{"n0":a,"n1":b,"slicing":1,"policy":0} for (a,b) in ((4,3),(5,2),(3,4))]})
 H.append({"name":"H_bsdiff","tiers":T,"scale":"b2","preemptions":2,"bounds":"old 2..8, new 5..17, partitions 1..3, <=2 preemptions","max_seconds":900,
   "param_sets":[{"n0":a,"n1":n,"parts":p,"policy":q} for a in (2,5,8) for n in (5,9,17) for p in (1,2,3) for q in (0,1)]})
 H.append({"name":"H_bsdiff","tiers":T,"scale":"b2","preemptions":1,"bounds":"4 partitions, <=1 preemption, three policies","max_seconds":900,
